@@ -89,8 +89,11 @@ class _Clock:
 
     def __init__(self):
         self.sleeps = 0
+        self.dead = False
 
     def sleep(self, _interval):
+        if self.dead:
+            raise SystemExit(S.KILL)    # tear-down of bytecode-granular runs (see c20_sched.kill_all)
         self.sleeps += 1
 
     @staticmethod
@@ -165,7 +168,7 @@ class RunM:
         self.wstart = {}           # worker tid -> time it was started
         self.mon = plugins.Monitor(self.bus, self._cb, frequency=(1 if case['freq'] else 0), name='m')
         codes, entry = _bt_codes(plugins)
-        self.s = S.Sched(codes, entry)
+        self.s = S.Sched(codes, entry, opcodes=bool(case.get('op')))
         if not case['daemon']:
             self.s.before_start = lambda thr: setattr(thr, 'daemon', False)
         self.s.on_worker = lambda rec, thr: self.wstart.__setitem__(rec.tid, self.clock)
@@ -174,6 +177,8 @@ class RunM:
         self.s.step('c')           # to its first traced line (or to the end when there are no calls)
 
     def _cb(self):
+        if self.plugins.time.dead:
+            raise SystemExit(S.KILL)
         me = self.s._me()
         self.journal.append((self.clock, me.tid if me else '?'))
 
@@ -185,6 +190,7 @@ class RunM:
 
     def close(self):
         try:
+            self.plugins.time.dead = True
             self.s.kill_all()
         finally:
             self.s.uninstall()
@@ -287,7 +293,7 @@ class RunB:
         self.bus.start()
         B = wspbus.Bus
         codes = [getattr(B, n).__code__ for n in ('wait', 'block', 'exit', 'restart', 'stop', 'start', 'graceful')]
-        self.s = S.Sched(codes, [])
+        self.s = S.Sched(codes, [], opcodes=bool(case.get('op')))
         self.s.install()
         self.s.spawn('m', self.bus.block)
         self.s.spawn('x', self._x)
@@ -308,6 +314,7 @@ class RunB:
 
     def close(self):
         try:
+            self.wspbus.time.dead = True
             self.s.kill_all()
         finally:
             self.s.uninstall()
@@ -369,7 +376,7 @@ def oracle_B(case, run):
         bad.append(('block() left its wait loop in state %s (EXITING %s)'
                     % (run.state_when_left, 'never reached' if run.t_exiting is None else 'reached'),
                     'B:block_returns_without_EXITING'))
-    if run.t_exiting is not None and not m.done and run.m_steps_after_exiting >= 8:
+    if run.t_exiting is not None and not m.done and run.m_steps_after_exiting >= (400 if case.get('op') else 8):
         bad.append(('the bus is EXITING and the main thread took %d more steps, but block() has not returned'
                     % run.m_steps_after_exiting, 'B:block_does_not_return'))
     if m.done:
@@ -401,7 +408,7 @@ class RunT:
         self.bus.subscribe('stop_thread', lambda i: self._pub('-', i))
         TM = plugins.ThreadManager
         codes = [getattr(TM, n).__code__ for n in ('acquire_thread', 'release_thread', 'stop')]
-        self.s = S.Sched(codes, [])
+        self.s = S.Sched(codes, [], opcodes=bool(case.get('op')))
         self.s.install()
         self.ident = {}
         self.n = len(case['scripts'])
@@ -447,7 +454,7 @@ class RunT:
                                         ','.join(d) or '-', len(self.journal))
 
     def final(self):
-        return ','.join('%s%d@%s' % e for e in self.journal) or '-'
+        return ','.join('%s%s@%s' % e for e in self.journal) or '-'
 
     def step(self, tid):
         if tid not in self.s.recs or tid not in self.s.runnable():
@@ -473,10 +480,10 @@ def oracle_T(case, run):
     held = {}
     for v in run.tm.threads.values():
         held[v] = held.get(v, 0) + 1
-    for i in sorted(set(idx) | set(held)):
+    for i in sorted(set(idx) | set(held), key=repr):
         st, sp = idx.get(i, [0, 0])
         if st != sp + held.get(i, 0):
-            bad.append(('index %d: start_thread published %d time(s), stop_thread %d time(s), %d registration(s) '
+            bad.append(('index %s: start_thread published %d time(s), stop_thread %d time(s), %d registration(s) '
                         'left' % (i, st, sp, held.get(i, 0)),
                         'T:stop_thread_twice' if sp + held.get(i, 0) > st else 'T:stop_thread_missing'))
     # each serving thread announces itself (start_thread from its own acquire) at most once per registration
@@ -554,10 +561,14 @@ def full_sched(case):
     its calls; turns of threads that are not schedulable are no-ops on both sides)."""
     k = case['k']
     tail = tail_M() if k == 'M' else tail_B() if k == 'B' else tail_T(len(case['scripts']))
+    if case.get('op'):
+        tail = [t for t in tail for _ in range(14)]     # bytecode steps are much finer than lines
     return list(case['sched']) + tail
 
 
 def model_line(case):
+    if case.get('op'):
+        return 'op ' + json.dumps(case, sort_keys=True)
     k = case['k']
     sched = ','.join(full_sched(case)) or '-'
     if k == 'M':
@@ -568,6 +579,8 @@ def model_line(case):
 
 
 def comparable(case):
+    if case.get('op'):
+        return False            # bytecode-granular runs are judged by the oracle only
     if case['k'] == 'T':
         if any(not ops for ops in case['scripts']):
             return False
@@ -580,13 +593,18 @@ def execute(case):
     """Run one case on the real threads.  Returns (snapshots, oracle failures, schedule, #threads that ran)."""
     run = RUNNERS[case['k']](case)
     try:
-        snaps = ['+' + run.snapshot()]
-        for tid in full_sched(case):
-            ok = run.step(tid)
-            snaps.append(('+' if ok else '-') + run.snapshot())
-        out = '|'.join(snaps)
-        if case['k'] == 'T':
-            out += '#' + run.final()
+        if case.get('op'):
+            for tid in full_sched(case):
+                run.step(tid)
+            out = ''
+        else:
+            snaps = ['+' + run.snapshot()]
+            for tid in full_sched(case):
+                ok = run.step(tid)
+                snaps.append(('+' if ok else '-') + run.snapshot())
+            out = '|'.join(snaps)
+            if case['k'] == 'T':
+                out += '#' + run.final()
         bad = ORACLES[case['k']](case, run)
         return out, bad, full_sched(case), sum(1 for r in run.s.recs.values() if r.steps > 1)
     except S.SchedError as e:
@@ -607,16 +625,31 @@ def _exec_chunk(chunk):
     return [execute(c) for c in chunk]
 
 
+def _pmap(fn, args):
+    """parallel map over forked workers; a worker that dies (interpreter crash) is a harness error,
+    never a hang and never a violation"""
+    if PROCS <= 1 or len(args) <= 1:
+        return [fn(a) for a in args]
+    import multiprocessing as mp
+    from concurrent.futures import ProcessPoolExecutor
+    from concurrent.futures.process import BrokenProcessPool
+    try:
+        with ProcessPoolExecutor(max_workers=PROCS, mp_context=mp.get_context('fork')) as ex:
+            return list(ex.map(fn, args, timeout=3000))
+    except BrokenProcessPool as e:
+        raise common.HarnessError('a case-execution worker process died: %r' % (e,))
+
+
 def check_cases(ctx, cases, compare=True):
     done = []
     cases = list(cases)
     modes()
     chunks = [cases[i:i + 25] for i in range(0, len(cases), 25)]
-    results = [r for rs in common.parallel_map(_exec_chunk, chunks, procs=PROCS) for r in rs]
+    results = [r for rs in _pmap(_exec_chunk, chunks) for r in rs]
     for case, (out, bad, sched, nthreads) in zip(cases, results):
         key = model_line(case)
         ctx.case(case, nontrivial=nthreads >= 2, key=key)
-        ctx.count('scenario:' + case['k'])
+        ctx.count('scenario:' + case['k'] + ('/bytecode' if case.get('op') else ''))
         ctx.count('%s:steps<=%d' % (case['k'], 20 * (1 + len(sched) // 20)))
         if case['k'] == 'M':
             ctx.count('M:calls=' + ','.join(case['calls']))
@@ -724,6 +757,18 @@ def gen_random(ctx, kind, n):
     return out
 
 
+def gen_opcode(ctx, n):
+    """bytecode-granular schedules (oracle only): random bursts, 10x longer than the line-granular ones"""
+    out = []
+    for kind in ('M', 'B', 'T'):
+        for case in gen_random(ctx, kind, n):
+            case = dict(case, op=1)
+            names = sorted(set(case['sched'])) or ['c']
+            case['sched'] = rand_sched(ctx.rng, names + names[:1], ctx.rng.randint(20, 700))
+            out.append(case)
+    return out
+
+
 def witness_cases():
     """Model-derived schedules: the Lean witnesses of the *_asIs_false theorems and neighbours."""
     cs = []
@@ -792,6 +837,9 @@ def run(ctx):
     n = ctx.budget(450, 5000)
     for kind in ('M', 'B', 'T'):
         check_cases(ctx, gen_random(ctx, kind, n))
+    ops = gen_opcode(ctx, ctx.budget(60, 1500))
+    check_cases(ctx, ops)
+    ctx.extra['bytecode_granular_oracle_only_cases'] = len(ops)
     if not ctx.quick():
         check_cases(ctx, list(thorough_two_preemptions(ctx)))
 
